@@ -134,7 +134,7 @@ def run(plugin, prop, tier, seed, t0):
     if tier == 'thorough' and b['ok']:
         rc, out = common.sh(['lake', 'env', 'leanchecker', plugin.MODULE] + [em['module'] for em in extra_modules], cwd=common.LEAN, timeout=1800)
         leanchecker = {'rc': rc, 'tail': out[-300:]}
-        checker_cmd += ' && lake env leanchecker ' + plugin.MODULE
+        checker_cmd += ' && lake env leanchecker ' + ' '.join([plugin.MODULE] + [ext.MODULE for ext in extensions])
         if rc != 0:
             ctx.broken = True
             notes.append('leanchecker rejected %s: %s' % (plugin.MODULE, out[-300:]))
